@@ -9,6 +9,7 @@ import ast
 import builtins
 import collections
 import functools
+import inspect
 import itertools
 import operator
 import pathlib
@@ -983,6 +984,12 @@ class Interp:
         except TypeError:
             model = None
         if model is not None:
+            try:
+                inspect.signature(model).bind(self, *args, **kwargs)
+            except TypeError as e:  # arity / keyword mismatch against the modelled builtin: a TypeError of the interpreted program
+                raise PyRaise(TypeError(f"{getattr(fn, '__name__', fn)}() {e}"))
+            except ValueError:
+                pass
             return model(self, *args, **kwargs)
         if not callable(fn):
             raise PyRaise(TypeError(f"'{self.type_name(fn)}' object is not callable"))
@@ -1406,6 +1413,13 @@ class Interp:
             if x is PClass.MISSING:
                 raise PyRaise(KeyError(repr(k)))
             return o[x]
+        if isinstance(o, dict) and isinstance(self.unbase(k), SStr) and all(isinstance(x, (str, SStr)) for x in o.keys()):
+            # symbolic string key into a dict with a concrete spine: case split over the keys
+            for x in list(o.keys()):
+                r = self.compare("Eq", x, k)
+                if self.truth(r):
+                    return o[x]
+            raise PyRaise(KeyError("<symbolic>"))
         if not self.concrete(k):
             raise Unsupported("symbolic subscript")
         try:
